@@ -35,9 +35,11 @@ ISPECS = []
 def bpf_alu_(obj, s, jt, jf, k):
     dst = env.A
     src = env.cst(k.int(-1), 32) if s == 0 else env.X
-    src.sf = True
+    # the flag is put on a copy: X is shared by the whole module
     if obj.mnemonic in ("or", "and", "xor", "neg"):
-        src.sf = False
+        src = src.unsigned()
+    else:
+        src = src.signed()
     obj.operands = [dst, src]
     obj.type = type_data_processing
 
